@@ -271,6 +271,12 @@ class Compiler(object):
             types = self.pre_process_parameterization_step_2(types)
             module['types'] = types
 
+        # Once more for members whose type was a dummy parameter, as
+        # the type of their default value was not known above.
+        for module_name, module in self._specification.items():
+            self.pre_process_default_value(module['types'].values(),
+                                           module_name)
+
         return self._specification
 
     def pre_process_components_of(self, type_descriptors, module_name):
